@@ -207,6 +207,11 @@ type FontSpec struct {
 	Encoding string `json:"encoding"` // /Encoding name; "" = entry absent
 	Indirect bool   `json:"indirect"` // /ToUnicode given as an indirect reference
 	Flate    bool   `json:"flate"`    // the CMap stream is Flate-compressed
+	// Program (type1, truetype): the font descriptor embeds a font program the library cannot use - "lzw": the
+	// stream is LZW-compressed (legal; not implemented), "short": twelve bytes, "nohead": a table directory
+	// without a head table, "missing": the reference resolves to nothing. What the codes mean is said by
+	// ToUnicode (or the encoding), not by the program.
+	Program string `json:"program,omitempty"`
 }
 
 func cmapStream(prog []byte, flate bool) *core.Stream {
@@ -241,6 +246,30 @@ func buildFont(fs FontSpec, prog []byte) (*font.Font, error) {
 		} else {
 			dict["ToUnicode"] = st
 		}
+	}
+	if fs.Program != "" && (fs.Via == "type1" || fs.Via == "truetype") {
+		var st *core.Stream
+		switch fs.Program {
+		case "lzw":
+			st = &core.Stream{Dict: core.Dict{"Filter": core.Name("LZWDecode"), "Length": core.Int(9), "Length1": core.Int(100)}, Data: []byte{0x80, 0x0B, 0x60, 0x50, 0x22, 0x0C, 0x0C, 0x85, 0x01}}
+		case "short":
+			st = &core.Stream{Dict: core.Dict{"Length": core.Int(12), "Length1": core.Int(12)}, Data: []byte("\x00\x01\x00\x00\x00\x00\x00\x00\x00\x00\x00\x00")}
+		case "nohead":
+			// sfnt version 1.0, one table ("cvt "), no head/cmap
+			data := []byte("\x00\x01\x00\x00\x00\x01\x00\x10\x00\x00\x00\x00cvt \x00\x00\x00\x00\x00\x00\x00\x1c\x00\x00\x00\x04\x00\x00\x00\x00")
+			st = &core.Stream{Dict: core.Dict{"Length": core.Int(len(data)), "Length1": core.Int(len(data))}, Data: data}
+		}
+		if st != nil {
+			objs[8] = st
+		}
+		key := "FontFile2"
+		if fs.Via == "type1" {
+			key = "FontFile"
+		}
+		dict["FontDescriptor"] = core.Dict{"Type": core.Name("FontDescriptor"), "FontName": core.Name("ABCDEF+Custom"), "Flags": core.Int(32),
+			"FontBBox": core.Array{core.Int(0), core.Int(-200), core.Int(1000), core.Int(900)}, "ItalicAngle": core.Int(0),
+			"Ascent": core.Int(800), "Descent": core.Int(-200), "CapHeight": core.Int(700), "StemV": core.Int(80),
+			key: core.IndirectRef{Number: 8}}
 	}
 	switch fs.Via {
 	case "plain":
@@ -564,6 +593,9 @@ func genFontSpec(t *rapid.T, width int, withCMap bool) FontSpec {
 		fs.Indirect = fs.Via != "plain" && rapid.Bool().Draw(t, "indirect")
 		fs.Flate = rapid.Bool().Draw(t, "flate")
 	}
+	if (fs.Via == "type1" || fs.Via == "truetype") && rapid.IntRange(0, 2).Draw(t, "hasProgram") == 0 {
+		fs.Program = rapid.SampledFrom([]string{"lzw", "short", "nohead", "missing"}).Draw(t, "program")
+	}
 	return fs
 }
 
@@ -620,6 +652,9 @@ func genCMapCase(t *rapid.T) CMapCase {
 	}
 	c.Program = string(cmapw.Write(cm, f))
 	c.Labels = []string{fmt.Sprintf("width:%d", cm.Width), "layout:" + f.Layout, fmt.Sprintf("eol:%q", f.EOL), fmt.Sprintf("gap:%q", f.Gap), "via:" + c.Font.Via, "header:" + f.Header}
+	if c.Font.Program != "" {
+		c.Labels = append(c.Labels, "embedded-program:"+c.Font.Program)
+	}
 	for _, b := range cm.Blocks {
 		c.Labels = append(c.Labels, "block:"+string(b.Kind))
 	}
